@@ -75,6 +75,19 @@ fn main() {
             eprintln!("{}", msg);
         }
     }));
+    // resident-set watchdog: a machinery exit (2), never a verdict, instead of an OOM kill
+    std::thread::spawn(|| loop {
+        std::thread::sleep(Duration::from_secs(2));
+        if let Ok(t) = std::fs::read_to_string("/proc/self/statm") {
+            let pages: u64 = t.split_whitespace().nth(1).and_then(|x| x.parse().ok()).unwrap_or(0);
+            let gb = pages * 4096 / (1 << 30);
+            let cap: u64 = std::env::var("VERIF_RSS_CAP_GB").ok().and_then(|s| s.parse().ok()).unwrap_or(40);
+            if gb >= cap {
+                println!("MACHINERY: resident set {} GB exceeds the cap of {} GB - aborting (not a verdict)", gb, cap);
+                std::process::exit(2);
+            }
+        }
+    });
     let ctx = Ctx::new(thorough, seed, Duration::from_secs(budget));
     let res = match prop.as_str() {
         "C01" => props::c01::run(&ctx),
